@@ -1,6 +1,8 @@
 """C05 - a recording is persisted whole or not at all, and finalised exactly once."""
 from lib import recdsl as rd
 from props.rec_common import *  # noqa: F401,F403
+from props import race_common as rc
+from props.c04 import static_gate  # noqa: F401  (atomic-region reduction of the racing-threads model)
 
 ID = "C05"
 RUN_MODULE = "RunC05"
@@ -8,8 +10,11 @@ RULE = ("one case = recorded operations (faults, discards, sampling outcomes, or
         "random steps incl. inside intercepted bodies) each followed by a replay of what was saved on the unchanged "
         "program; non-trivial = at least one interception or fault; distinct = distinct history")
 ASSUMPTIONS = ["a cassette whose create_new_recording / abort_recording raise is outside the tolerated fault list",
-               "single-threaded operations"]
-THEOREMS = ["C05_abort_at_most_once", "C05_finalised_exactly_once", "C05_saved_only_if_captured"]
+               "threads: as for C04 - the methods that touch the active recording are modelled access by access "
+               "(Recorder/Threads.v), any number of threads, any schedule, a locked region is one step; the program-level "
+               "theorems (rec_exec, record_run) are about one thread"]
+THEOREMS = ["C05_abort_at_most_once", "C05_finalised_exactly_once", "C05_saved_only_if_captured",
+            "C05_finalised_exactly_once_under_any_interleaving", "C05_legacy_refuted"]
 
 W = dict(rd.DEFAULT_W, fault=0.3, unser=0.05, handler=0.35, discard=0.8, force=0.6, enable=0.35, prep_discards=0.1,
          interrupt=0.15, raise_=0.25, playdata=0.1, recdata=0.4)
@@ -51,8 +56,42 @@ def stale_state_history(rng):
             dict(kind="play", target=1, pf={"kind": "op", "op": rd.clean(opb)}, enabled=False)]
 
 
+def to_gallina(case, obs):     # noqa: F811
+    if rc.is_race(case):
+        return rc.to_gallina(case, obs)
+    from props import rec_common
+    t = rec_common.to_gallina(case, obs)
+    return None if t is None else "H (%s)" % t
+
+
+def explain(case, obs):        # noqa: F811
+    if rc.is_race(case):
+        return rc.explain(case, obs)
+    from props import rec_common
+    return "explain_case (%s)" % rec_common.to_gallina(case, obs)
+
+
+_hist_features, _hist_nontrivial = features, nontrivial     # (from rec_common)
+
+
+def features(case):      # noqa: F811
+    return rc.features(case) if rc.is_race(case) else _hist_features(case)
+
+
+def nontrivial(case):    # noqa: F811
+    return True if rc.is_race(case) else _hist_nontrivial(case)
+
+
+def shrink_candidates(case):     # noqa: F811
+    if rc.is_race(case):
+        return
+    from props import rec_common
+    for c in rec_common.shrink_candidates(case):
+        yield c
+
+
 def generate(rng, tier):
-    cases = []
+    cases = rc.race_cases(rng, tier)
     for _ in range(24 if tier == "quick" else 200):
         cases.append(dict(draws=[], runs=stale_state_history(rng), cassette="memory"))
     n = 240 if tier == "quick" else 4000
@@ -72,6 +111,8 @@ def generate(rng, tier):
 def direct(case, obs):
     if "driver_exception" in obs:
         return [("driver", obs["driver_exception"] + obs.get("trace", "")[-400:])]
+    if rc.is_race(case):
+        return rc.direct_finalisation(case, obs)
     if f07c_affected(obs):
         return []          # region of known finding F07c (reported by C01): nothing is concluded from such a case
     fails = []
@@ -183,10 +224,15 @@ MANIFEST = dict(
          "capture failure, a 'keep' decision and a snapshot holding every write of the run. Model tied to /repo by running "
          "fault-laden programs with all termination modes on a real TapeRecorder with a spy cassette and comparing the "
          "cassette call sequence and saved snapshots; direct predicate counts finalisations per created recording and "
-         "replays every saved, complete recording on the unchanged program (no missing-key error).",
+         "replays every saved, complete recording on the unchanged program (no missing-key error). Racing threads "
+         "(Recorder/Threads.v, any number of threads, any schedule): the recording is handed to the cassette at most once "
+         "at every moment and exactly once when it is gone and every thread is between calls "
+         "(C05_finalised_exactly_once_under_any_interleaving; the code before /repo 359c201 refuted by C05_legacy_refuted); "
+         "tied to /repo by deterministic preemption of the real methods before every shared access (race_driver.py).",
     note="Trusted: Coq kernel + vm_compute, hand-written model, correspondence harness (spy cassette around the real "
          "in-memory cassette). The clause 'a saved complete recording replays without a missing-key error' is proved "
          "under C01's hypotheses (Properties/C01.v) and searched directly here. Cassettes whose create/abort raise are "
-         "outside the tolerated faults.",
+         "outside the tolerated faults. Threads are modelled at the granularity of accesses to the recorder's shared "
+         "fields, a locked region being one step (trusted reduction, source-gated in C04's check).",
     technique="Coq proof (invariant by structural induction, transitive step relation) + differential correspondence by "
               "vm_compute + finalisation counting on a spy cassette")
